@@ -78,7 +78,7 @@ func TestC14_PBES2(t *testing.T) {
 			}
 		}
 		for pass, ks := range seeds {
-			for _, kc := range allPrivateClasses() {
+			for _, kc := range productClasses() {
 				if hasPrefix(kc, "rsa-") && pass > 0 && pass%3 != 0 {
 					continue // the RSA keys are fixed; repeat them for the parameters only now and then
 				}
@@ -110,7 +110,7 @@ func TestC14_PBES2(t *testing.T) {
 func TestC14_PBES2Variants(t *testing.T) {
 	observeOnce()
 	ks := keySeeds(2)[1]
-	keys := []string{"sm2-lz1", "sm9-encuser", "p256-lz1", "rsa-1024", "ecdh-uniform", "sm2-n-2", "sm9-signmaster-lz1"}
+	keys := []string{"sm2-lz1", "sm9-encuser", "p256-lz1", "rsa-1024", "ecdh-uniform", "sm2-n-2", "sm9-signmaster-lz1", "p521-lz1", "p224-uniform", "rsa-3072", "p521-top"}
 	if h.Thorough() {
 		keys = allPrivateClasses()
 	}
@@ -154,7 +154,7 @@ func TestC14_PBES1_PEM(t *testing.T) {
 	h.Sweep(t, h.P{Name: "pbes1-pem-product"}, func(emit func(rtCase)) {
 		i := 0
 		for pass, ks := range seeds {
-			for _, kc := range allPrivateClasses() {
+			for _, kc := range productClasses() {
 				if hasPrefix(kc, "rsa-") && pass%4 != 0 {
 					continue
 				}
@@ -239,7 +239,7 @@ func TestC14_AlterGCM(t *testing.T) {
 	observeOnce()
 	h.MarkExhaustive("alter-gcm")
 	ks := keySeeds(4)[3]
-	others := []string{"sm9-signuser", "rsa-1024", "p384-lz1", "ecdh-lz1", "sm9-encmaster", "sm2-top", "p256-uniform", "sm9-encuser", "sm2-d1", "sm9-signmaster-lz1"}
+	others := []string{"sm9-signuser", "rsa-1024", "p384-lz1", "ecdh-lz1", "sm9-encmaster", "sm2-top", "p256-uniform", "sm9-encuser", "sm2-d1", "sm9-signmaster-lz1", "p521-lz1", "p224-uniform", "p521-top"}
 	h.Sweep(t, h.P{Name: "alter-gcm"}, func(emit func(altCase)) {
 		i := 0
 		for pass := 0; pass < h.Scale(1, 2); pass++ { // thorough: a second set of keys, salts, passwords
@@ -281,7 +281,7 @@ func TestC14_AlterGCM(t *testing.T) {
 func TestC14_AlterUnauth(t *testing.T) {
 	observeOnce()
 	h.MarkExhaustive("alter-unauthenticated")
-	others := []string{"sm9-signuser", "p256-lz1", "ecdh-uniform", "sm9-encmaster-lz1", "sm2-n-2", "p384-uniform", "sm9-encuser", "sm2-d2", "sm9-signmaster", "rsa-1024"}
+	others := []string{"sm9-signuser", "p256-lz1", "ecdh-uniform", "sm9-encmaster-lz1", "sm2-n-2", "p384-uniform", "sm9-encuser", "sm2-d2", "sm9-signmaster", "rsa-1024", "p521-uniform", "p224-lz1", "p521-n-1"}
 	h.Sweep(t, h.P{Name: "alter-unauthenticated"}, func(emit func(altCase)) {
 		i := 0
 		for pass := 0; pass < h.Scale(1, 2); pass++ { // thorough: a second set of keys, salts, passwords
@@ -318,6 +318,8 @@ func TestC14_AlterUnauth(t *testing.T) {
 	}, checkAlter)
 }
 
+var quickSkipAlterPlain = map[string]bool{"p224-lz1": true, "p224-n-1": true, "p521-uniform": true, "p521-n-1": true}
+
 func TestC14_AlterPlain(t *testing.T) {
 	observeOnce()
 	h.MarkExhaustive("alter-plain")
@@ -331,12 +333,15 @@ func TestC14_AlterPlain(t *testing.T) {
 				if !applicable(kc, cont) || cont == "p8-nilpw" || cont == "p8-convert" {
 					continue // same bytes and same parser as p8-smx509
 				}
-				if kc == "rsa-2048" && !h.Thorough() && cont != "pkix" {
+				if (kc == "rsa-2048" || kc == "rsa-3072") && !h.Thorough() && cont != "pkix" {
 					continue
+				}
+				if quickSkipAlterPlain[kc] && !h.Thorough() {
+					continue // quick: P-224 / P-521 are sampled (p224-uniform, p521-lz1, p521-top)
 				}
 				emitAlterations(cspec{Key: kc, KSeed: ks, Cont: cont}, emit)
 			}
-			if kc == "rsa-2048" && !h.Thorough() || isPub(kc) {
+			if (kc == "rsa-2048" || kc == "rsa-3072" || quickSkipAlterPlain[kc]) && !h.Thorough() || isPub(kc) {
 				continue
 			}
 			i++
@@ -359,12 +364,12 @@ func TestC14_Random(t *testing.T) {
 	observeOnce()
 	classes := allPrivateClasses()
 	families := []string{"p8-pbes2", "p8-pbes2", "p8-pbes2", "p8-smpbes", "p8-pbes1", "pem", "env", "cfca", "p8-smx509", "sec1", "pkix", "p8-pbes2raw"}
-	h.Prop(t, h.P{Name: "random", Quick: 1500, Thorough: 40000}, func(rt *rapid.T) rndCase {
+	h.Prop(t, h.P{Name: "random", Quick: 1500, Thorough: 30000}, func(rt *rapid.T) rndCase {
 		var s cspec
 		s.Cont = rapid.SampledFrom(families).Draw(rt, "family")
 		for {
 			s.Key = rapid.SampledFrom(classes).Draw(rt, "key")
-			if applicable(s.Key, s.Cont) && s.Key != "rsa-2048" {
+			if applicable(s.Key, s.Cont) && s.Key != "rsa-2048" && s.Key != "rsa-3072" {
 				break
 			}
 		}
